@@ -166,7 +166,10 @@ def fidelity_phase(pools, prop, verif_seed, k, known):
         try:
             r = f.result(timeout=900)
         except BaseException as e:  # noqa: BLE001
-            r = {"verdict": "harness_error", "error": f"worker failed: {e}"}
+            try:
+                r = pools.call_custom(P.devices_for(prop, s), "mdpsim.cases.run_fidelity", prop, s)
+            except BaseException as e2:  # noqa: BLE001
+                r = {"verdict": "harness_error", "error": f"worker failed twice: {e} / {e2}"}
         if r["verdict"] == "skipped":
             out["skipped"] += 1
             continue
@@ -364,10 +367,8 @@ def finish(prop, tier, verif_seed, results, extra, det, known, pools, t0, shrink
         print(f"HARNESS-ERROR: {extra['harness_errors']} cases of the enumeration / fidelity phases could not be executed or disagreed")
         if rc == 0:
             rc = 2
-    if getattr(pools, "broken", 0):
-        print(f"HARNESS-ERROR: {pools.broken} worker pool(s) died during the run (stall watchdog or crash)")
-        if rc == 0:
-            rc = 2
+    if getattr(pools, "retried", 0) or getattr(pools, "replaced", 0):
+        print(f"NOTE: worker processes died during the run; {getattr(pools, 'retried', 0)} cases were re-executed in fresh processes")
     if harness or det["diverged"]:
         for r in harness[:5]:
             print(f"HARNESS-ERROR seed={r.get('seed')} {str(r.get('error'))[:1500]}")
